@@ -94,6 +94,45 @@ def parse_number(tok):
     return None
 
 
+def parse_prefixed(tl):
+    """#x.. #b.. #o.. #d.. #e.. #i.. (exact integers / ratios in the given radix; #e/#i on decimal reals)"""
+    radix, exact = 10, None
+    t = tl
+    while len(t) >= 2 and t[0] == "#":
+        c = t[1]
+        if c in "xbod":
+            radix = {"x": 16, "b": 2, "o": 8, "d": 10}[c]
+        elif c in "ei":
+            exact = c
+        else:
+            return None
+        t = t[2:]
+    if radix == 10:
+        r = parse_real(t)
+        if r is None:
+            return None
+    else:
+        m = re.fullmatch(r"([+-]?)([0-9a-f]+)(?:/([0-9a-f]+))?", t)
+        if not m:
+            return None
+        try:
+            num = int(m.group(2), radix)
+            den = int(m.group(3), radix) if m.group(3) else 1
+        except ValueError:
+            return None
+        if den == 0:
+            return None
+        r = mkexact(Fraction(-num if m.group(1) == "-" else num, den))
+    if exact == "i" and r[0] in "iq":
+        v = Fraction(r[1], r[2] if r[0] == "q" else 1)
+        return ("f", fbits(float(v)))
+    if exact == "e" and r[0] == "f":
+        if r[1] == "nan" or bits_to_float(r[1]) in (float("inf"), float("-inf")):
+            return None
+        return mkexact(Fraction(bits_to_float(r[1])))
+    return r
+
+
 class Reader:
     def __init__(self, text):
         self.s = text
@@ -334,6 +373,9 @@ class Reader:
             return ("b", True)
         if tl in ("#f", "#false"):
             return ("b", False)
+        n = parse_prefixed(tl)
+        if n is not None:
+            return n
         raise ReadError("unsupported # syntax %r at %d" % (tok, tok_start))
 
 
